@@ -408,6 +408,17 @@ fn run_keygen(plan: &Value, rec: &mut Rec) {
             if sig.verify(&crate::keys::get("outsider-v4").public, msg).is_ok() {
                 return fail("verify:primary", "signature verifies under an unrelated key".to_string());
             }
+            // RSA signature values are a deterministic function of the message: many messages, so that
+            // values with leading zero octets (1 in 256) occur for this key too
+            if jstr(plan, "primary") == "rsa" && !jbool(plan, "locked") {
+                for j in 0..400u32 {
+                    let m = format!("message number {j} for the generated key");
+                    let sig = DetachedSignature::sign_binary_data(&mut rng2, &key.primary_key, &ppw, hash, m.as_bytes()).map_err(|e| ("sign:primary".to_string(), format!("primary key cannot sign: {e}")))?;
+                    if let Err(e) = sig.verify(&public, m.as_bytes()) {
+                        return fail("verify:primary", format!("signature #{j} by the generated RSA primary does not verify under its public half: {e}"));
+                    }
+                }
+            }
         }
         for (i, s) in plan["subkeys"].as_array().into_iter().flatten().enumerate() {
             let t = jstr(s, "type");
